@@ -48,15 +48,15 @@ func init() {
 		// reach the other
 		conc := c04concurrentRuns(tier)
 		n += conc
-		return Plan{Runs: n, Enumerated: e + conc, RaceFrom: e, RaceTo: e + conc, Exhaustive: true, Level: "fault_enumeration", Rule: "enumerated: (signer in {issuer, configured trusted signer, sibling CA with the same name, stranger, the client certificate's own key, the same with the client certificate presented alone as a directly trusted leaf, CA without cRLSign, the issuer's genuine signature of ANOTHER list the validator verified earlier in the same process, the root of the presented chain signing in the issuer's name} x AKI form in {keyId, absent, issuer+serial, both, foreign keyId, serial without issuer, URI issuer + serial} x intake path in {first CDP load, crl_urls at provision, periodic refresh, and - for the configured trusted signer - a restart on the same work_dir with that signer withdrawn from the configuration}) + (13 signature algorithms x intake path) + every single-bit flip of tbsCertList / signatureAlgorithm / signatureValue of a small ECDSA CRL on the first-load path (bit indices past the end of the document are counted as skipped); further runs: the same sweep for an RSA CRL (thorough), flips on the refresh path and on larger documents; 24 (thorough: 200) runs right after the enumerated ones take a genuine list and a forgery carrying its signature value in at the same time, under heavy preemption and the race detector; oracle: a non-authentic document is never observed in force and a strict handshake for its distribution point is denied unless an earlier authentic version is in force; non-trivial = the delivered document was not authentic"}
+		return Plan{Runs: n, Enumerated: e + conc, RaceFrom: e, RaceTo: e + conc, Exhaustive: true, Level: "fault_enumeration", Rule: "enumerated: (signer in {issuer, configured trusted signer, sibling CA with the same name, stranger, the client certificate's own key, the same with the client certificate presented alone as a directly trusted leaf, CA without cRLSign, the issuer's genuine signature of ANOTHER list the validator verified earlier in the same process, the root of the presented chain signing in the issuer's name} x AKI form in {keyId, absent, issuer+serial, both, foreign keyId, serial without issuer, URI issuer + serial} x intake path in {first CDP load, crl_urls at provision, periodic refresh, and - for the configured trusted signer - a restart on the same work_dir with that signer withdrawn from the configuration}) + (13 signature algorithms x intake path) + every single-bit flip of tbsCertList / signatureAlgorithm / signatureValue of a small ECDSA CRL on the first-load path (bit indices past the end of the document are counted as skipped); further runs: the same sweep for an RSA CRL (thorough), flips on the refresh path and on larger documents; 48 (thorough: 400) runs right after the enumerated ones run under seeded preemption and the race detector, alternating: a genuine list and a forgery carrying its signature value taken in at the same time; and a list for CA A's distribution point signed by CA B (trusted for its own clients only) taken in while a client of CA B shakes hands beside it, with 0..7 unrelated configured trusted signers, fetch_actively or fetch_background; oracle: a non-authentic document is never observed in force and a strict handshake for its distribution point is denied unless an earlier authentic version is in force; non-trivial = the delivered document was not authentic"}
 	}, Run: runC04})
 }
 
 func c04concurrentRuns(tier string) int {
 	if tier == "thorough" {
-		return 200
+		return 400
 	}
-	return 24
+	return 48
 }
 
 func c04total(tier string) int {
@@ -73,7 +73,7 @@ func c04total(tier string) int {
 func c04concurrentIntake(h *Harness) {
 	tp := h.Tape
 	sc := h.R.Scenario
-	backend := []string{"memory", "disk"}[h.Idx%2]
+	backend := []string{"memory", "disk"}[(h.Idx/2)%2]
 	h.S.pPre = uint64(Pick(tp, 200, 400, 700)) * (1 << 32) / 1000
 	h.S.stallSteps, h.S.pDelayDen, h.S.delayFor = Pick(tp, 0, 30, 300), Pick(tp, 0, 4), 2*time.Second
 	sc["case"], sc["path"], sc["backend"], sc["authentic"] = "signer=replayed-signature concurrent-intake", "first-load", backend, false
@@ -110,12 +110,72 @@ func c04concurrentIntake(h *Harness) {
 	h.Cleanup(n)
 }
 
+// c04foreignBeside: the only list ever delivered for the distribution point of CA A's certificates carries A's name but
+// is signed by CA B (authority key identifier of B) - B is trusted for ITS clients, it is not above A's certificates.
+// While A's client waits for that (slow) download - or, with fetch_background, before the background load has
+// verified it - a client of CA B shakes hands, presenting B's chain. With 0..7 unrelated configured trusted signers.
+// Whatever the two handshakes share, B's certificate is no signer for A's distribution point.
+func c04foreignBeside(h *Harness) {
+	tp := h.Tape
+	sc := h.R.Scenario
+	backend := []string{"memory", "disk"}[(h.Idx/2)%2]
+	k := tp.Int(8)
+	fetch := Pick(tp, "", "fetch_background")
+	h.S.pPre = uint64(Pick(tp, 50, 200, 400)) * (1 << 32) / 1000
+	h.S.stallSteps, h.S.pDelayDen, h.S.delayFor = Pick(tp, 0, 30, 300), Pick(tp, 0, 4), 2*time.Second
+	sc["case"], sc["path"], sc["backend"], sc["authentic"] = fmt.Sprintf("signer=other-client-ca beside trusted-signers=%d fetch=%s", k, fetch), "first-load", backend, false
+	h.R.NonTrivial, h.R.Config = true, "faulty"
+	w := NewWorld(h, WorldOpts{Intermediate: tp.Chance(1, 2)})
+	l1 := w.NewLocation(LocOpts{Name: "L1", URL: "http://crl.sim/a.crl", Issuer: w.A, NVers: 1, Extra: Pick(tp, 2, 40), Width: 8})
+	l2 := w.NewLocation(LocOpts{Name: "L2", URL: "http://crlb.sim/b.crl", Issuer: w.B, NVers: 1, Extra: 2, Width: 8, Base: 7})
+	f := *l1.Versions[0]
+	f.Signer, f.SignerKey, f.AutoAlg = w.B, nil, true
+	f.Build()
+	l1.Versions[0] = &f
+	l1.SlowFirst = Pick(tp, 5*time.Second, 30*time.Second)
+	var trusted []string
+	for i := 0; i < k; i++ {
+		u := NewCA(nil, CAOpts{CN: fmt.Sprintf("Unrelated Signer %d", i)})
+		trusted = append(trusted, h.WriteFile(fmt.Sprintf("trust/unrelated%d.pem", i), CertPEM(u.Cert)))
+	}
+	cfg := NodeCfg{Mode: "crl_only", Storage: backend, UpdateInterval: "10m", SigMode: "verify", CDPStrict: true, FetchMode: fetch, TrustedSigFiles: trusted}
+	n := h.NewNode("n1", cfg)
+	if err := h.Provision(n); err != nil {
+		h.Violation("C04.setup", "provision-failed", "%v", err)
+		return
+	}
+	a := h.StartHandshake(n, "client-of-a", w.ChainFor(l1.Cert(l1.Never[0]), w.A))
+	h.S.Run(func(v schedView) bool { return l1.Fetches > 0 || a.Task.done }, h.S.Now()+time.Minute)
+	b := h.StartHandshake(n, "client-of-b", w.ChainFor(l2.Cert(l2.Never[0]), w.B))
+	h.Wait(a.Task, b.Task)
+	h.Settle(time.Minute)
+	a2 := h.Handshake(n, "client-of-a-again", w.ChainFor(l1.Cert(l1.Never[0]), w.A))
+	h.Quiesce()
+	h.R.Checks += 3
+	sig := fmt.Sprintf("signer=other-client-ca:beside:trusted=%d", k)
+	if a.Err == nil || a2.Err == nil {
+		h.Violation("C04.strict-accept-unauthentic", sig, "strict: a handshake of CA A's client was accepted (first: %s, again: %s) although the only CRL ever delivered for its distribution point is signed by CA B, which is neither above that certificate nor a configured signer; a client of CA B shook hands beside it (%d unrelated trusted signers, fetch mode %q)", errStr(a.Err), errStr(a2.Err), k, fetch)
+	}
+	if p := l1.Pattern(n); p == "v1" || strings.HasPrefix(p, "other") {
+		h.Violation("C04.unauthentic-in-force", sig, "the probes show the list signed by CA B in force for CA A's distribution point (pattern %s); a client of CA B shook hands while it was being taken in (%d unrelated trusted signers, fetch mode %q)", p, k, fetch)
+	}
+	if b.Err != nil {
+		h.Probe("beside-client-of-b-denied")
+	}
+	h.R.Sample = map[string]any{"case": sc["case"], "backend": backend}
+	h.Cleanup(n)
+}
+
 func runC04(h *Harness) {
 	tp := h.Tape
 	sc := h.R.Scenario
 	if e := c04matrix() + c04bitsUpper; h.Idx >= e {
 		if h.Idx < e+c04concurrentRuns(h.Tier) {
-			c04concurrentIntake(h)
+			if (h.Idx-e)%2 == 1 {
+				c04foreignBeside(h)
+			} else {
+				c04concurrentIntake(h)
+			}
 			return
 		}
 		h.Idx -= c04concurrentRuns(h.Tier) // the runs behind keep their numbering
